@@ -209,6 +209,25 @@ def main():
                     chk.violation("locale|" + m["key"], "%s under a decimal-comma C locale (n=%d, shape %s) [%d cases]" % (m["detail"], t["n"], t["shape"], m["count"]),
                                   {"dataset": r["dataset"], "detail": m["detail"]})
             chk.require(locale_runs >= (8 if quick else 30), "only %d datasets went through the decimal-comma pass" % locale_runs)
+        # ---- the envelope of the rejection sampler is the maximum of the whole table, also when that maximum sits on a node whose
+        #      energies sum exactly to the maximum energy sum (hand-written 5x5 table, maximum 1.0 at (1.5,1.5), all other nodes <= 0.4)
+        envd = os.path.join(root, "envelope", "data/dbd_gA/v1.0/Test/g0")
+        os.makedirs(envd)
+        rows = ["0.1 0.2 0.3 0.4 0.3", "0.2 0.3 0.4 0.2", "0.3 0.4 1.0", "0.4 0.2", "0.3"]   # node (i,j): e = 0.5 + 0.5 i; i + j == 4 is the boundary
+        open(os.path.join(envd, "tab_pdf.data"), "w").write("3.0\nProbability 0.5 2.5 0.5 5\n" + "\n".join(rows) + "\n")
+        exe_env = build.harness("plain", "c14_envelope", ["c14_envelope.cc"])
+        rce, oute, erre = run([exe_env], timeout=600, env=build.lib_env("plain", {"BXDECAY0_DBD_GA_DATA_DIR": os.path.join(root, "envelope")}))
+        rec_env = None
+        for ln in oute.splitlines():
+            if ln.startswith("{"):
+                rec_env = json.loads(ln)
+        if rce != 0 or rec_env is None or not rec_env.get("loaded") or not rec_env.get("control_returns"):
+            chk.inconclusive_("c14_envelope gave no usable result (rc=%s): %s %s" % (rce, oute[-200:], erre[-200:]))
+        elif rec_env["accepted_away_from_the_maximum"] > 0:
+            chk.violation("rejection|envelope-below-the-table-maximum",
+                          "with the acceptance deviate at 1 - 1e-9 the rejection sampler accepted %d of %d trials runs away from the table's maximum node (e.g. at %s): its envelope is below "
+                          "the maximum of the table (which sits on a node with e1 + e2 equal to the maximum energy sum)" % (rec_env["accepted_away_from_the_maximum"], rec_env["runs"], rec_env["witness"]),
+                          rec_env)
         chk.require(len(recs) == len(datasets), "harness reported %d of %d datasets" % (len(recs), len(datasets)))
         chk.require(stats["maxlevel"] >= 8, "encoded tables never reached a run of 9s beyond level %d" % stats["maxlevel"])
         chk.coverage.update({
